@@ -47,6 +47,8 @@ def run(ctx: Context) -> None:
     _infra.live_depth_coordinates(ctx, 'R13.7')
     _infra.every_depth_coordinate(ctx, 'R13.7')
     _infra.depth_coordinates_only_read(ctx, 'R13.7')
+    _infra.depth_markers(ctx, 'R13.7')
+    _infra.shoc_depth_names(ctx, 'R13.7')
     _infra.bounds_excluded(ctx, 'R13.7', 'emsarray.conventions._base.Convention.depth_coordinates', "depth coordinate discovery")
     _infra.bounds_names_helper(ctx, 'R13.7')
     ctx.assume("xarray Dataset.copy() gives independent attribute dictionaries and variables; assign/assign_coords/isel return new datasets")
